@@ -61,7 +61,8 @@ Lemma ensure_new h o : not_wrapper h o ->
   let w := List.length (h_objs h) in let r := List.length (h_regs h) in
   exists h', ensure_wrapped h o = (h', r) /\ wrapper_of h' w r /\
              r_func (get_reg h' r) = o /\ r_vals (get_reg h' r) = [] /\ r_patcher (get_reg h' r) = None /\
-             o_kind (get_obj h' w) = ODeal r /\ o_wrapped (get_obj h' w) = Some o.
+             o_kind (get_obj h' w) = ODeal r /\ o_wrapped (get_obj h' w) = Some o /\
+             h_objs h' = (h_objs h ++ [{| o_kind := ODeal r; o_attr := Some r; o_wrapped := Some o; o_fkind := o_fkind (get_obj h o) |}])%list.
 Proof.
   intros Hn w r. unfold ensure_wrapped.
   assert (E : match o_attr (get_obj h o) with
@@ -86,19 +87,19 @@ Lemma steps_on_wrapper l : forall h w r,
   exists h', apply_steps h w l = (h', w) /\ wrapper_of h' w r /\
              r_vals (get_reg h' r) = (r_vals (get_reg h r) ++ vals_of l)%list /\
              r_func (get_reg h' r) = r_func (get_reg h r) /\
-             r_patcher (get_reg h' r) = last_has l (r_patcher (get_reg h r)).
+             r_patcher (get_reg h' r) = last_has l (r_patcher (get_reg h r)) /\ h_objs h' = h_objs h.
 Proof.
   induction l as [|s t IH]; intros h w r Hd Hw.
-  - exists h. cbn. rewrite app_nil_r. auto.
+  - exists h. cbn. rewrite app_nil_r. split; [reflexivity|]. split; [exact Hw|]. repeat split; reflexivity.
   - cbn [forallb] in Hd. apply andb_true_iff in Hd. destruct Hd as [Hs Ht].
     unfold apply_steps. cbn [fold_left]. destruct s as [k v|p|?|?]; try discriminate; cbn [apply_step fst snd].
-    + destruct (attach_on_wrapper k v h w r Hw) as (h1 & E1 & W1 & V1 & F1 & P1 & _).
-      rewrite E1. destruct (IH h1 w r Ht W1) as (h' & E & W' & V' & F' & P').
-      exists h'. split; [exact E|]. split; [exact W'|]. rewrite V', V1, F', F1, P', P1.
+    + destruct (attach_on_wrapper k v h w r Hw) as (h1 & E1 & W1 & V1 & F1 & P1 & O1 & _).
+      rewrite E1. destruct (IH h1 w r Ht W1) as (h' & E & W' & V' & F' & P' & O').
+      exists h'. split; [exact E|]. split; [exact W'|]. rewrite V', V1, F', F1, P', P1, O', O1.
       unfold vals_of. cbn. rewrite <- app_assoc. auto.
-    + destruct (attach_has_on_wrapper p h w r Hw) as (h1 & E1 & W1 & V1 & F1 & P1 & _).
-      rewrite E1. destruct (IH h1 w r Ht W1) as (h' & E & W' & V' & F' & P').
-      exists h'. split; [exact E|]. split; [exact W'|]. rewrite V', V1, F', F1, P', P1. auto.
+    + destruct (attach_has_on_wrapper p h w r Hw) as (h1 & E1 & W1 & V1 & F1 & P1 & O1 & _).
+      rewrite E1. destruct (IH h1 w r Ht W1) as (h' & E & W' & V' & F' & P' & O').
+      exists h'. split; [exact E|]. split; [exact W'|]. rewrite V', V1, F', F1, P', P1, O', O1. auto.
 Qed.
 
 (* any non-empty sequence of deal decorators applied to a function object that is not a deal wrapper: one new registry, whose
@@ -109,10 +110,11 @@ Theorem union_fresh s l h o :
   exists h', apply_steps h o (s :: l) = (h', w) /\ wrapper_of h' w r /\
              r_func (get_reg h' r) = o /\
              r_vals (get_reg h' r) = vals_of (s :: l) /\
-             r_patcher (get_reg h' r) = last_has (s :: l) None.
+             r_patcher (get_reg h' r) = last_has (s :: l) None /\
+             h_objs h' = (h_objs h ++ [{| o_kind := ODeal r; o_attr := Some r; o_wrapped := Some o; o_fkind := o_fkind (get_obj h o) |}])%list.
 Proof.
   intros Hn Hs Hl w r.
-  destruct (ensure_new h o Hn) as (h0 & E0 & W0 & F0 & V0 & P0 & _). fold w r in E0, W0, F0, V0, P0.
+  destruct (ensure_new h o Hn) as (h0 & E0 & W0 & F0 & V0 & P0 & _ & _ & O0). fold w r in E0, W0, F0, V0, P0, O0.
   unfold apply_steps. cbn [fold_left]. destruct s as [k v|p|?|?]; try discriminate; cbn [apply_step fst snd].
   - unfold attach. rewrite E0.
     set (h1 := upd_reg (set_vfun h0 v (r_func (get_reg h0 r))) r _).
@@ -128,8 +130,8 @@ Proof.
     { destruct W0 as (A & B & C & D). unfold h1, get_reg, upd_reg, set_vfun. cbn. rewrite nth_list_upd_same by exact B. cbn. exact P0. }
     assert (Ew : r_wrapped (get_reg h1 r) = w) by (destruct W1 as (_ & _ & _ & D); exact D).
     rewrite Ew.
-    destruct (steps_on_wrapper l h1 w r Hl W1) as (h' & E & W' & V' & F' & P').
-    exists h'. unfold apply_steps in E. split; [exact E|]. split; [exact W'|]. rewrite V', V1, F', F1, P', P1. auto.
+    destruct (steps_on_wrapper l h1 w r Hl W1) as (h' & E & W' & V' & F' & P' & O').
+    exists h'. unfold apply_steps in E. split; [exact E|]. split; [exact W'|]. rewrite V', V1, F', F1, P', P1, O'. repeat split; auto.
   - unfold attach_has. rewrite E0.
     set (h1 := upd_reg h0 r _).
     assert (W1 : wrapper_of h1 w r).
@@ -143,8 +145,8 @@ Proof.
     { destruct W0 as (A & B & C & D). unfold h1, get_reg, upd_reg. cbn. rewrite nth_list_upd_same by exact B. reflexivity. }
     assert (Ew : r_wrapped (get_reg h1 r) = w) by (destruct W1 as (_ & _ & _ & D); exact D).
     rewrite Ew.
-    destruct (steps_on_wrapper l h1 w r Hl W1) as (h' & E & W' & V' & F' & P').
-    exists h'. unfold apply_steps in E. split; [exact E|]. split; [exact W'|]. rewrite V', V1, F', F1, P', P1. auto.
+    destruct (steps_on_wrapper l h1 w r Hl W1) as (h' & E & W' & V' & F' & P' & O').
+    exists h'. unfold apply_steps in E. split; [exact E|]. split; [exact W'|]. rewrite V', V1, F', F1, P', P1, O'. repeat split; auto.
 Qed.
 
 (* grouping is irrelevant: chain(c1..cn) is c1 then ... then cn, so only the flattened sequence of steps matters *)
